@@ -15,7 +15,7 @@ func init() {
 			"ObjectWriter.save and PackWriter.save every return after the rename that puts the file in place passes a call of the writer's `published` hook; DotGit.NewObject/NewObjectPack install a hook that " +
 			"drops the matching listing (objectMap / packMap) and are the only constructors' callers; ObjectDelete and DeleteOldObjectPackAndIndex drop the listing after the removal (a deferred drop registered before it counts); " +
 			"(listing-snapshot) every reader of the listings obtains list and set from objectListing/packListing in one locked step (no separate generate-then-read); " +
-			"(notify-publishes-index) the pack writer's Notify callback installed by ObjectStorage publishes s.index[h] and s.packs under muI and PackWriter.Close calls Notify only for a finished index. " +
+			"(notify-publishes-index) the pack writer's Notify callback installed by ObjectStorage publishes s.index[h] and s.packs under muI, every pack writer ObjectStorage hands out carries that callback, and PackWriter.Close calls Notify only for a finished index. " +
 			"(cached-slice-not-handed-out) an exported method of DotGit / ObjectStorage returns a cached slice field (directly, through a local, or through an unexported helper's result; fixpoint over the type's methods) only as a full slice " +
 			"expression s[a:b:b] or a copy, so that a caller's append cannot overwrite the shared listing. Not decided: visibility under every interleaving with other storage instances; the object cache; in-place modification of returned elements.",
 		Assumptions: []string{"rename within objects/ is the publication point of loose objects and packs"},
@@ -260,6 +260,31 @@ func runC18(c *Ctx) {
 	if pw := c.MustFunc(r3, "storage/filesystem.(*ObjectStorage).packfileWriter"); pw != nil {
 		sinfo := pw.Pkg.TypesInfo
 		ost := p.lookupType("storage/filesystem", "ObjectStorage")
+		// every writer handed out has the Notify callback installed (otherwise a pack written while the index was loaded
+		// by an interleaved read never reaches s.index)
+		{
+			notifyF := fieldOf(p.lookupType(dotgitShort, "PackWriter"), "Notify")
+			f := p.FlowOf(pw)
+			installs := func(n ast.Node) bool {
+				as, ok := n.(*ast.AssignStmt)
+				if !ok {
+					return false
+				}
+				for _, l := range as.Lhs {
+					if sel, ok := unparen(l).(*ast.SelectorExpr); ok && notifyF != nil && sinfo.Uses[sel.Sel] == types.Object(notifyF) {
+						return true
+					}
+				}
+				return false
+			}
+			yields := func(n ast.Node) bool {
+				r, ok := n.(*ast.ReturnStmt)
+				return ok && len(r.Results) == 2 && !isNil(sinfo, r.Results[0])
+			}
+			h := f.Search(SearchOpts{Starts: []Loc{f.Entry()}, Sink: yields, Barrier: installs})
+			c.Check(h == nil, r3, pw.Name()+":notify-always-installed", pw.Decl.Pos(), orStr(ifStr(h != nil, "a pack writer can be handed out without the Notify callback: if the index is loaded by a read while the writer is open, the finished pack is never added to it and its objects stay invisible"+hitLines(f, h)),
+				"every writer handed out carries the Notify callback that publishes the finished pack"))
+		}
 		idxF, packsF := fieldOf(ost, "index"), fieldOf(ost, "packs")
 		wIdx, wPacks := false, false
 		ast.Inspect(pw.Decl.Body, func(n ast.Node) bool {
